@@ -27,6 +27,9 @@ def domain(ctx):
     # minor version, 0xFFFF as a minor version are ordinary concrete values)
     inst += (0x00FF,)
     mino += (0xFF, 0xFFFF)
+    # values that differ from the first minor version by a carry into a neighbouring field's bits: a comparison done on
+    # packed integers (or on concatenated bytes) with a wrong width confuses them with a difference in that field
+    mino += (mino[0] + (1 << 24), mino[0] + (1 << 16))
     if ctx.thorough:
         inst += (0, 0x8000)
         maj += (0, 0x80)
